@@ -31,7 +31,7 @@ class Plugin(BasePlugin):
     explain_fn = 'c03_explain'
     quick_n = 2000
     thorough_n = 40000
-    FINDING_BITS = 1 | 2 | 4 | 8 | 16 | 32 | 64 | 128 | 256
+    FINDING_BITS = 1 | 2 | 4 | 8 | 16 | 32 | 64 | 128 | 256 | 512 | 1024 | 2048
     UNDECIDED_BITS = 0
     rule = ('a collection of 0-5 documents (group keys from a small domain incl. null/missing/1 vs 1.0 vs true, '
             'numbers, strings, arrays of scalars and of sub-documents, a sub-document, a join key) + a second '
